@@ -37,6 +37,7 @@ FLOORS = {
     "thorough": {"assess_checks": 3000, "simulate_checks": 3000, "event_matches": 5000, "law_instances": 60, "modes_jit": 3000, "modes_eager": 300, "modes_vmapkeys": 60},
 }
 TIMEOUT_S = {"quick": 1200, "thorough": 5400}
+CLEAR_CACHES_EVERY = {"quick": 0, "thorough": 6}  # see lib/worker.py
 
 N_CASES = {"quick": 96, "thorough": 1000}
 FAMILY_CYCLE = ["mixed", "builtin", "probe", "discrete", "bare", "probe", "builtin", "bare-discrete"]
